@@ -19,7 +19,7 @@ from ..index import AnalysisError
 from .. import astq
 from ._c09_prov import (Prov, Chain, NONE, alts, const, is_const, seq_shape, strip_views, interface_positions,
                         bind_interface, mentions, forwarded, proper_part, bool_behaviour, analysed,
-                        check_first_call_only, borrow)
+                        check_first_call_only, borrow, element_view)
 from .c09 import P, loc_of, fsig, tpos, TLoop, last_step_component, loop_plain
 
 SK = "sktime/forecasting/base/_sktime.py"
@@ -926,6 +926,12 @@ COMPOSITES = (
 
 def classify_receiver(res, recv):
     """(label, role, loop id or None, covers-all?)"""
+    if isinstance(recv, tuple) and recv and recv[0] == "item":
+        view = element_view(res, recv)  # for i in range(len(seq)): seq[i]
+        if view is not None:
+            base, rev, sl = seq_shape(view[0])
+            if isinstance(base, tuple) and base[0] in ("attr0", "attr@") and base[1] == "forecasters_":
+                return "members", "forecaster", view[2], sl is None
     if isinstance(recv, tuple) and recv and recv[0] == "elem":
         base, rev, sl = seq_shape(recv[1])
         if isinstance(base, tuple) and base[0] in ("attr0", "attr@") and base[1] == "forecasters_":
